@@ -207,10 +207,6 @@ class _NS:
             fns=[CE + "CentralizedTaskingEngine.calculateRewards", CE + "CentralizedTaskingEngine.generateTasking"], mode="Z",
             note="the engine's reward matrix is reward.calculate(reward.normalizeMetrics(metric_matrix)) reshaped to targets x sensors, and its decision matrix is decision.calculate(reward_matrix, visibility_matrix) - the policies above see exactly the engine's matrices")
 def engine(vc):
-    if not vc.symbolic:
-        vc.ensure("O-C07-engine.rewards", True)
-        vc.ensure("O-C07-engine.tasking", True)
-        return
     log = []
     metric = np.arange(12.0).reshape(2, 3, 2)
     normed = np.arange(12.0).reshape(2, 3, 2) + 100
